@@ -1,6 +1,12 @@
 """Which units / harnesses carry which property.  (Obligations are selected by tag inside a unit.)
 
-k_groups: list of dicts {module, harnesses:[(name, kind)], tier    'C19': {
+k_groups: list of dicts {module, harnesses:[(name, kind)], tier    'C14': {
+        'title': 'Layout trivia never changes results and diagnostics track source positions',
+        'v_units': ['source_manager', 'token_stream'],
+        'k_groups': [],
+        'design_ref': 'DESIGN.md §3 C14',
+    },
+    'C19': {
         'title': 'Layout-consistency validation is sound',
         'v_units': ['layout'],
         'k_groups': [],
@@ -19,13 +25,13 @@ C13_OPS = ['prefix_increment', 'prefix_decrement', 'postfix_increment', 'postfix
 PROPS = {
     'C10': {
         'title': 'Lexing is lossless and numeric literals are exact',
-        'v_units': ['lexer_digits'],
+        'v_units': ['lexer_digits', 'token_stream', 'source_manager'],
         'k_groups': [],
         'design_ref': 'DESIGN.md §3 C10',
     },
     'C11': {
         'title': 'Conditional compilation selects exactly the branches C semantics select',
-        'v_units': ['cond_chain'],
+        'v_units': ['cond_chain', 'cond_parser'],
         'k_groups': [],
         'design_ref': 'DESIGN.md §3 C11',
     },
@@ -45,6 +51,12 @@ PROPS = {
              'tier': 'quick'},
         ],
         'design_ref': 'DESIGN.md §3 C13',
+    },
+    'C14': {
+        'title': 'Layout trivia never changes results and diagnostics track source positions',
+        'v_units': ['source_manager', 'token_stream'],
+        'k_groups': [],
+        'design_ref': 'DESIGN.md §3 C14',
     },
     'C19': {
         'title': 'Layout-consistency validation is sound',
